@@ -247,8 +247,8 @@ Enabled(o, S) ==
     [] o.op = "GetSigner" ->
          (CASE o.by = "default" -> TRUE
             [] o.by = "identity" -> o.i \in db.ids
-            [] o.by = "key" -> o.k \in db.keys \cup S.gone
-            [] o.by = "cert" -> o.c \in db.certs \/ o.c[1] \in S.gone)
+            [] o.by = "key" -> o.k \in db.keys \/ (o.k \in S.gone /\ o.loc = "cert")
+            [] o.by = "cert" -> o.c \in db.certs \/ (o.c[1] \in S.gone /\ o.loc = "cert"))
     [] o.op = "Close" -> TRUE
 
 Ops(S) == {o \in AllOps : Enabled(o, S)}
@@ -264,13 +264,14 @@ DumpAlias == [st |-> st, obs |-> ObsAlways(st)]
 Tick(S) == IF Depth > 0 THEN [S EXCEPT !.n = @ + 1] ELSE S
 Exec(o, S) == Tick(IF o.op = "Close" THEN [Do(o, S) EXCEPT !.open = FALSE] ELSE Do(o, S))
 More == Depth = 0 \/ st.n < Depth
+Unlimited == 99
 \* (Call / Crash: the bare transitions, reused by KeychainTrace with its own well-formedness guard)
 Call(o) == st.open /\ st' = Exec(o, st)
 Crash(o, n) == /\ st.open /\ n <= NFaults(o, st)
-               /\ st' = Tick([Part(o, st, n) EXCEPT !.nf = IF MaxFaults = 0 THEN 0 ELSE @ + 1])
+               /\ st' = Tick([Part(o, st, n) EXCEPT !.nf = IF MaxFaults >= Unlimited THEN 0 ELSE @ + 1])
 Step(o) == More /\ st.open /\ Enabled(o, st) /\ Call(o)
-\* MaxFaults = 0: any number of faults in a history (nf not counted)
-Fail(o, n) == /\ More /\ st.open /\ (MaxFaults = 0 \/ st.nf < MaxFaults)
+\* MaxFaults = number of failures injected per history at most; >= Unlimited: any number (nf not counted)
+Fail(o, n) == /\ More /\ st.open /\ (MaxFaults >= Unlimited \/ st.nf < MaxFaults)
               /\ Enabled(o, st) /\ Crash(o, n)
 Reopen == More /\ ~st.open /\ st' = Tick([st EXCEPT !.open = TRUE])
 
@@ -370,4 +371,10 @@ W_PendingTxn == ~(st.cur # st.disk)
 W_GoneAndCache == ~(st.gone # {} /\ st.cache # {})
 W_OrphanFile == ~(\E k \in st.tpm : k \notin st.cur.keys /\ k \notin st.disk.keys)
 W_CustomLocTwoKeys == ~(\E e1, e2 \in st.cache : e1.loc = e2.loc /\ e1.key # e2.key)
+\* all witnesses in one single-worker run: INIT WitnessInit, CONSTRAINT WitnessMark, POSTCONDITION WitnessPost
+WitnessInit == Init /\ \A i \in 11..16 : TLCSet(i, FALSE)
+WitnessMark == /\ (W_TwoKeysTwoCerts \/ TLCSet(11, TRUE)) /\ (W_NoDefaultButPopulated \/ TLCSet(12, TRUE))
+               /\ (W_PendingTxn \/ TLCSet(13, TRUE)) /\ (W_GoneAndCache \/ TLCSet(14, TRUE))
+               /\ (W_OrphanFile \/ TLCSet(15, TRUE)) /\ (W_CustomLocTwoKeys \/ TLCSet(16, TRUE))
+WitnessPost == \A i \in 11..16 : TLCGet(i) \/ PrintT(<<"UNREACHED", i>>)
 =============================================================================
